@@ -8,12 +8,14 @@ CONSTANTS
   PlusOne = TRUE
   UnsatGe = TRUE
   ImsLe = TRUE
+  ImsLocalTime = FALSE
   Tokens <- NoTokens
   MaxTokens = 0
   StartPaths <- SizedFiles
   Fbs <- RangeFbs
   Ranges <- RangeSpecs
-  Imss <- AllIms
+  Zones <- UtcOnly
+  ImsFor <- RangeIms
 INVARIANT Containment
 INVARIANT ServedIsInside
 INVARIANT NothingElseIs404
@@ -25,4 +27,5 @@ INVARIANT ContentRangeConsistent
 INVARIANT ZeroSizeIgnoresRange
 INVARIANT UnsatCarriesSize
 INVARIANT NotModifiedNoBody
+INVARIANT DecisionIndependentOfZone
 INVARIANT Emit
